@@ -79,12 +79,28 @@ theorem pieces_of_chain (seq : Array Base) (sc : Nat → Nat) (k p : Nat) (hk : 
       have : iv.start + iv.len - (k - 1) = iv'.start := by omega
       rw [this]; exact ihh
 
+theorem permScore_lt (perm : Array Nat) (rcMode : Bool) (h : ∀ i : Nat, i < perm.size → perm[i]?.getD 0 < 2 ^ 64) (w : Seq) :
+    permScore perm rcMode w < 2 ^ 64 := by
+  have key : ∀ i : Nat, perm[i]?.getD 0 < 2 ^ 64 := by
+    intro i
+    by_cases hi : i < perm.size
+    · exact h i hi
+    · have : perm[i]? = none := by simp; omega
+      simp [this]
+  unfold permScore
+  cases rcMode
+  · simpa using key _
+  · have h1 := key (rank w)
+    simp only [if_true]
+    exact Nat.lt_of_le_of_lt (Nat.min_le_left _ _) h1
+
 /-- **C08, pieces.** Every piece is the exact substring of the read at consecutive offsets overlapping by
     k-1, the last one ends at the end of the read, and its boundary extensions are exactly the read's
     flanking bases (none at a read end). Reads shorter than k give no piece. -/
 theorem C08_pieces_exact (k p : Nat) (seq : Array Base) (perm : Option (Array Nat)) (rcMode : Bool) (maxLen : Nat)
     (h₁ : 1 ≤ p) (h₂ : p ≤ k) (h₄ : seq.size < 2 ^ 32) (h₅ : 2 * k - p ≤ 65535) (h₆ : 2 * k - p ≤ maxLen)
-    (h₇ : 4 ^ p ≤ (perm.getD (Array.range (4 ^ p))).size) :
+    (h₇ : 4 ^ p ≤ (perm.getD (Array.range (4 ^ p))).size)
+    (h₈ : ∀ i : Nat, i < (perm.getD (Array.range (4 ^ p))).size → (perm.getD (Array.range (4 ^ p)))[i]?.getD 0 < 2 ^ 64) :
     ∃ pieces, mspSequence k p seq perm rcMode maxLen = some pieces ∧
       (if seq.size < k then pieces = [] else PiecesFrom seq k 0 pieces) := by
   unfold mspSequence
@@ -95,6 +111,7 @@ theorem C08_pieces_exact (k p : Nat) (seq : Array Base) (perm : Option (Array Na
     have h7' : ¬ (perm.getD (Array.range (4 ^ p))).size < 4 ^ p := by omega
     simp only [h7', if_false]
     obtain ⟨ivs, he, hh⟩ := C07_scan_valid seq (permScore (perm.getD (Array.range (4 ^ p))) rcMode) k p h₁ h₂ (by omega) h₄ h₅
+      (permScore_lt _ _ h₈)
     rw [he]
     refine ⟨_, rfl, ?_⟩
     exact pieces_of_chain seq _ k p (by omega) ivs hh.2.2 (fun iv hiv => (hh.2.1 iv hiv).1) 0 hh.1
@@ -149,10 +166,11 @@ theorem kmers_of_pieces (seq : Array Base) (k : Nat) (hk : 1 ≤ k) :
 /-- **C08, coverage.** The k-mers of the pieces, in order, are the k-mers of the read, each once. -/
 theorem C08_pieces_cover (k p : Nat) (seq : Array Base) (perm : Option (Array Nat)) (rcMode : Bool) (maxLen : Nat)
     (h₁ : 1 ≤ p) (h₂ : p ≤ k) (h₃ : k ≤ seq.size) (h₄ : seq.size < 2 ^ 32) (h₅ : 2 * k - p ≤ 65535) (h₆ : 2 * k - p ≤ maxLen)
-    (h₇ : 4 ^ p ≤ (perm.getD (Array.range (4 ^ p))).size) :
+    (h₇ : 4 ^ p ≤ (perm.getD (Array.range (4 ^ p))).size)
+    (h₈ : ∀ i : Nat, i < (perm.getD (Array.range (4 ^ p))).size → (perm.getD (Array.range (4 ^ p)))[i]?.getD 0 < 2 ^ 64) :
     ∃ pieces, mspSequence k p seq perm rcMode maxLen = some pieces ∧
       pieces.flatMap (fun pc => kmersOfSeq k pc.seq) = (List.range (seq.size - k + 1)).map (window seq k) := by
-  obtain ⟨pieces, he, hp⟩ := C08_pieces_exact k p seq perm rcMode maxLen h₁ h₂ h₄ h₅ h₆ h₇
+  obtain ⟨pieces, he, hp⟩ := C08_pieces_exact k p seq perm rcMode maxLen h₁ h₂ h₄ h₅ h₆ h₇ h₈
   refine ⟨pieces, he, ?_⟩
   simp only [show ¬ seq.size < k by omega, if_false] at hp
   rw [kmers_of_pieces seq k (by omega) pieces 0 hp, List.range_eq_range']; rfl
